@@ -985,6 +985,14 @@ fn parse_client_frame_inner(frame: &[u8], notes: &mut Vec<String>) -> R<ClientMs
             }
             let protocols = k.u32le()?;
             k.expect_end("negotiation request")?;
+            // MS-RDPBCGR 2.2.1.1.1: 0x01 restricted admin, 0x02 redirected authentication, 0x08 correlation info present
+            // (a 36-byte RDP_NEG_CORRELATION_INFO then follows the request; nothing follows it here)
+            if flags & 0x08 != 0 {
+                return Err("negotiation request: rdpCorrelationInfo announced (flag 0x08) but absent".into());
+            }
+            if flags & !0x0b != 0 {
+                return Err(format!("negotiation request: undefined flag bits {:#04x}", flags & !0x0b));
+            }
             Ok(ClientMsg::ConnectionRequest { flags, protocols, has_neg: true })
         }
         0xF0 => {
